@@ -325,6 +325,17 @@ def gen_cases(rng, n):
         if with_keyed:
             feats.append("keyed-table")
         cases.append({"setup": setup, "sql": q, "features": feats, "ordered": ordered, "nkeys": nkeys})
+    # table statistics: the property quantifies over them ("real or mocked row counts"): a third of the
+    # cases run with mocked row counts (0, tiny, huge) for the tables they create — estimates decide
+    # which physical operator is extracted, and rules that rely on that choice must not
+    import re as _re
+    for c in cases:
+        if rng.random() < 0.34:
+            tabs = [m.group(1) for st in c["setup"] for m in [_re.match(r"create table (\w+)\(", st)] if m]
+            mock = ["set mock_rowcount_%s = %d" % (t, rng.choice([0, 0, 1, 2, 3, 7, 1000, 1000000])) for t in tabs if rng.random() < 0.8]
+            if mock:
+                c["setup"] = list(c["setup"]) + mock
+                c["features"] = list(c["features"]) + ["mocked-statistics"]
     return cases
 
 
